@@ -211,7 +211,7 @@ def knobs_text(k):
         out.append("gc " + k["gc"])
     if "sched" in k:
         out.append("sched " + k["sched"])
-    for key in ("max_yields", "max_sim_s", "clock_phase_ns", "pipe_size", "sock_buf", "monitor"):
+    for key in ("max_yields", "max_sim_s", "clock_phase_ns", "tick_ns", "pipe_size", "sock_buf", "monitor"):
         if key in k:
             out.append("%s %d" % (key, k[key]))
     if k.get("explicit"):
@@ -465,6 +465,7 @@ def check_main(driver_cls, tier, budget_s, base_seed, workers=None, max_runs=Non
     exit_code = 0
     lines = []
     known_seen = []
+    unconfirmed = []
     if os.environ.get("VERIF_VERBOSE"):
         slow = sorted(results, key=lambda r: -r["wall_us"])[:5]
         print("[check] batch done: %d runs in %.1fs; slowest runs (s): %s; signatures: %s" % (
@@ -477,7 +478,14 @@ def check_main(driver_cls, tier, budget_s, base_seed, workers=None, max_runs=Non
         plan = driver.gen(seed0, tier)
         mplan, mres, nruns = minimise(driver, plan, sig)
         if mplan is None:
-            # did not reproduce in the parent process: harness nondeterminism, not a verdict
+            # did not reproduce in the parent process
+            if "san/" in sig or "/crash" in sig:
+                # sanitizer reports depend on the sanitizer's own bounded history and on the contents of freed
+                # memory: an unreproducible one is recorded, never reported as a violation
+                lines.append("UNCONFIRMED: property=%s signature=%s seed=%d (sanitizer report did not recur on re-run)" % (prop, sig, seed0))
+                unconfirmed.append({"signature": sig, "seed": seed0})
+                continue
+            # harness nondeterminism, not a verdict
             lines.append("HARNESS: property=%s signature=%s seed=%d did not reproduce on re-run" % (prop, sig, seed0))
             exit_code = max(exit_code, 2)
             continue
@@ -489,9 +497,16 @@ def check_main(driver_cls, tier, budget_s, base_seed, workers=None, max_runs=Non
             ok = any(v.sig == sig for v in vs2)
             hashes.append((res.history_hash(), ok))
         if not (hashes[0] == hashes[1] and hashes[0][1]):
-            lines.append("HARNESS: property=%s signature=%s seed=%d replay not deterministic" % (prop, sig, seed0))
-            exit_code = max(exit_code, 2)
-            continue
+            if ("san/" in sig or "/crash" in sig) and hashes[0][1] and hashes[1][1]:
+                pass    # same violation both times; histories may differ after a memory error (garbage is read)
+            elif "san/" in sig or "/crash" in sig:
+                lines.append("UNCONFIRMED: property=%s signature=%s seed=%d (sanitizer report not stable on replay)" % (prop, sig, seed0))
+                unconfirmed.append({"signature": sig, "seed": seed0})
+                continue
+            else:
+                lines.append("HARNESS: property=%s signature=%s seed=%d replay not deterministic" % (prop, sig, seed0))
+                exit_code = max(exit_code, 2)
+                continue
         name = "%s-%s.json" % (prop, hashlib.sha256(sig.encode()).hexdigest()[:10])
         path = os.path.join(REPLAYS, name)
         detail = [v.detail for v in vs2 if v.sig == sig][0]
@@ -546,7 +561,7 @@ def check_main(driver_cls, tier, budget_s, base_seed, workers=None, max_runs=Non
             "faults_fired": faults, "probes": probes, "outcomes": outcomes,
             "distinct_interleavings": len({r["sw"] for r in results if r["sw"]}),
             "distinct_histories": len({r["hist"] for r in results}),
-            "components": driver.components, "known_findings_seen": known_seen,
+            "components": driver.components, "known_findings_seen": known_seen, "unconfirmed_reports": unconfirmed,
             "workers": workers,
         },
         "assumptions": getattr(driver, "assumptions", []),
